@@ -418,11 +418,12 @@ class Ref(object):
                       [(d["etype"], d["code"]) for d in errs]))
           raise Deviation("C04", "flow-mod/missing-error", "out of sync")
     # buffered packet attached to the flow_mod (C18 scope)
-    if buf is not None:
+    if buf is not None and res[0] != "ok":
+      self.refused_flow_mod_buffer(buffer_id, buf_err)
+    elif buf is not None:
       self.after_buffer_use(buffer_id, acts, buf_err, "flow_mod",
-                            lenient=(res[0] != "ok"
-                                     or st["cmd"] in (W.FC_DELETE,
-                                                      W.FC_DELETE_STRICT)))
+                            lenient=st["cmd"] in (W.FC_DELETE,
+                                                  W.FC_DELETE_STRICT))
     elif buf_err:
       self.dev("C18", "buffer/spurious-error", "flow_mod without buffer got "
                "a buffer error")
@@ -498,6 +499,31 @@ class Ref(object):
       if len(buf_err) != 1:
         self.dev("C13", "buffer/no-error", "%s naming unknown/used buffer %d "
                  "got %d buffer errors" % (what, buffer_id, len(buf_err)))
+
+  def refused_flow_mod_buffer(self, buffer_id, buf_err):
+    """a flow_mod that named buffer_id was refused with an error: the
+    controller has been told that nothing happened, so a packet held under
+    that id is still held (and still good for exactly one release)"""
+    mdl = self.model
+    outs = self.world.take_out()
+    self.sim.probes["refused_flow_mod_names_buffer"] += 1
+    if buffer_id in mdl.buffers:
+      self.sim.probes["refused_flow_mod_names_held_buffer"] += 1
+      if outs or buf_err:
+        self.dev("C18", "buffer/refused-flow-mod-used-buffer", "the flow_mod "
+                 "naming held buffer %d was refused, yet %d frame(s) were "
+                 "emitted / %d buffer error(s) sent"
+                 % (buffer_id, len(outs), len(buf_err)))
+      store = self.world.switch._packet_buffer
+      if not (0 < buffer_id <= len(store)
+              and store[buffer_id - 1] is not None):
+        self.dev("C18", "buffer/refused-flow-mod-freed-buffer", "the "
+                 "flow_mod naming held buffer %d was refused, and the packet "
+                 "is gone" % buffer_id)
+    elif outs:
+      self.dev("C18", "buffer/bogus-emits", "refused flow_mod naming "
+               "unknown/used buffer %d emitted %d frame(s)"
+               % (buffer_id, len(outs)))
 
   used_buffers = None
   inflight = 0
